@@ -45,6 +45,34 @@ def replay_chain(rep: Report, rec: Dict[str, Any], rng: random.Random) -> None:
                       {"chain": rec, "shape": list(shape), "dtype": str(dt)}, key=f"chain:{'fwd' if not okf else 'bwd'}:{'zero' if 0 in (ef, eb) else 'neg' if min(ef, eb) < 0 else 'pos'}")
 
 
+def history_probe(rep: Report, rng: random.Random, n: int) -> None:
+    """Process history: "multiply the gradient by whatever factor is given" must not depend on which dtype (or which
+    other factor) went through the primitives first.  Fresh non-dyadic factors, each used on a random ORDER of dtypes."""
+    from unit_scaling.scale import scale_bwd, scale_fwd
+
+    tols = {torch.bfloat16: 2.0 ** -7, torch.float16: 2.0 ** -10, torch.float32: 2.0 ** -22, torch.float64: 2.0 ** -50}
+    for i in range(n):
+        fb = rng.choice([rng.uniform(0.05, 3.0), 1.0 / rng.randint(3, 999), rng.randint(3, 999) / 7.0])
+        ff = rng.uniform(0.05, 3.0)
+        order = list(tols)
+        rng.shuffle(order)
+        if i % 2 == 0:
+            order.sort(key=lambda d: tols[d], reverse=True)     # lowest precision first
+        for dt in order:
+            shape = rng.choice([(3,), (2, 3), ()])
+            x = torch.randn(shape, dtype=torch.float64).to(dt).requires_grad_(True)
+            up = torch.randn(shape, dtype=torch.float64).to(dt)
+            y = scale_fwd(scale_bwd(x, fb), ff)
+            (g,) = torch.autograd.grad(y, x, up)
+            okf = y.dtype == dt and torch.allclose(y.detach().double(), x.detach().double() * ff, rtol=tols[dt], atol=0)
+            okb = g.dtype == dt and torch.allclose(g.double(), up.double() * fb, rtol=tols[dt], atol=0)
+            rep.case(("history", i, str(dt)))
+            if not (okf and okb):
+                rep.violation(f"scale_bwd(x, {fb!r}) / scale_fwd(x, {ff!r}) in {dt} after the dtype history {[str(d) for d in order[: order.index(dt)]]}: value multiplier ok={okf}, gradient multiplier ok={okb}",
+                              {"history": [str(d) for d in order], "dtype": str(dt), "bwd_factor": fb, "fwd_factor": ff}, key=f"history:{'fwd' if not okf else 'bwd'}")
+                return
+
+
 def run(rep: Report, tier: str) -> None:
     rng = random.Random(common.seed() * 31 + 6)
     torch.manual_seed(common.seed())
@@ -62,6 +90,7 @@ def run(rep: Report, tier: str) -> None:
     if len(chains) < 1000:
         raise common.MachineryError(f"Tape_MC emitted only {len(chains)} chains")
     rep.extra["chains_emitted_by_tlc"] = len(chains)
+    history_probe(rep, rng, 24 if tier == "quick" else 400)
     for rec in chains:
         if tier == "quick" and len(rec["ch"]) == 3 and rng.random() > 0.2:
             continue
@@ -96,6 +125,11 @@ def replay(rep: Report, path: str) -> None:
             replay_chain(rep, c["chain"], random.Random(_))
         rep.traces = 1
         rep.sample(c["chain"])
+        return
+    if "history" in c:
+        history_probe(rep, random.Random(d.get("seed", 0) * 31 + 6), 24)
+        rep.traces = 1
+        rep.sample(c)
         return
     classes = fnlog.Classes()
     ev, _ = fnlog.events_for_cfg(1, c["cfg"], False, True, classes)
